@@ -102,6 +102,9 @@ func canonCmd(out *cq.Out, seed uint64, tier string) {
 					evs = events[pos : pos+k]
 				}
 				snaps := r.add(evs, k == 0)
+				if addFailed(out, r, map[string]interface{}{"case": ci, "seed": seed, "plan": pl.name, "sizes": pl.sizes, "restarts": pl.restarts, "call": ci2}) {
+					break
+				}
 				pos += len(evs)
 				var evl []string
 				for _, e := range evs {
